@@ -31,7 +31,7 @@ RULE = (
     "returned through a narrower declared result type; then 1-3 calls with boundary values (width extremes, NaN/+-0/inf, "
     "''/NUL/non-BMP, empty containers, None in optional slots, omitted defaulted args) and at most one call carrying a "
     "value the declared type cannot represent (out-of-range int, None for non-optional, wrong python type, float for int, "
-    "non-member enum, sub-unit temporal, over-precise decimal, wrong fixed length, oversized duration). Every case runs "
+    "omitted required argument, non-member enum, sub-unit temporal, over-precise decimal, wrong fixed length, oversized duration). Every case runs "
     "over pipe and in-process HTTP (thorough: also unix socketpair, tcp loopback, shm-pipe). Non-trivial = signature has "
     ">=2 params and >=1 non-int/str type, or a default is omitted, or the case holds an unrepresentable value. Distinct by "
     "SHA-1 of the canonical JSON case."
@@ -69,6 +69,7 @@ def _bad_options(t: dict) -> list[dict]:
     opts: list[dict] = []
     if t["k"] != "opt":
         opts.append({"kind": "none"})
+        opts.append({"kind": "missing"})  # only used for parameters without a default (filtered by the caller)
     if k == "int":
         lo, hi = G.INT_BOUNDS[base.get("w", "int64")]
         opts += [{"kind": "int_oob", "v": hi + 1}, {"kind": "int_oob", "v": lo - 1}, {"kind": "float_for_int", "v": 1.5},
@@ -165,7 +166,7 @@ def cases(draw: st.DrawFn) -> dict:
         mi = draw(G._upto(len(methods) - 1))
         m = methods[mi]
         p = ch(draw, m["params"])
-        opts = _bad_options(p["t"])
+        opts = [o for o in _bad_options(p["t"]) if o["kind"] != "missing" or "default" not in p]
         if opts:
             args = {q["name"]: G.gen_value(draw, q["t"], env) for q in m["params"] if q["name"] != p["name"]}
             calls.append({"m": mi, "args": args, "bad": {"p": p["name"], **ch(draw, opts)}})
@@ -272,7 +273,8 @@ def _one_call(out: Outcome, tr: str, conn: Any, rec: list, env: G.Env, m: dict, 
     expected: dict[str, Any] = {}
     for p in m["params"]:
         if bad and p["name"] == bad["p"]:
-            kwargs[p["name"]] = _bad_value(p["t"], bad, env)
+            if bad["kind"] != "missing":
+                kwargs[p["name"]] = _bad_value(p["t"], bad, env)
             continue
         if p["name"] in c["args"]:
             kwargs[p["name"]] = G.build_value(p["t"], c["args"][p["name"]], env)
@@ -335,6 +337,11 @@ def _one_call(out: Outcome, tr: str, conn: Any, rec: list, env: G.Env, m: dict, 
         return ("ok",)
     # ---- call carrying a value the declared type cannot represent
     bt = next(p for p in m["params"] if p["name"] == bad["p"])["t"]
+    if bad["kind"] == "missing":
+        if invoked:
+            out.fail(f"missing_required_invoked/{tc}", f"{tr}: {m['name']} ran although the required, non-optional parameter {bad['p']}: "
+                     f"{G.type_sig(bt)} was not passed; it received {bad['p']}={invoked[0][1].get(bad['p'], '<missing>')!r}")
+        return ("ok",) if err is None else ("error", "rejected")
     sent = kwargs[bad["p"]]
     if err is not None and not invoked:
         return ("error", "rejected")
